@@ -68,6 +68,7 @@ type Contract struct {
 	NoFrame     bool
 	Cases       []*Clause     // case split: the function is verified once under each case assumption
 	SiteAsserts []*SiteAssert // assertions at the statements whose source line contains a given text
+	CheckPre    []string      // with posts_only: callees whose preconditions are nevertheless obligations here
 	Sets        []*Clause     // sets ghost(g) = expr: ghost assignments made at entry (the event the function stands for)
 	Preserves   []string      // with noframe: heap maps (T.f, T.*) the function never writes (checked syntactically)
 	CallAsserts []*SiteAssert // assert_call <callee>: assertions about the arguments at every call of a callee
@@ -138,7 +139,7 @@ func newContractDB() *ContractDB {
 	return &ContractDB{Funcs: map[string]*Contract{}, Specs: map[string]*SpecFunc{}, Lemmas: map[string]*Lemma{}, Consts: map[string]string{}, Ghosts: map[string]string{}}
 }
 
-var keywordRe = regexp.MustCompile(`^(package|axiom|func|requires|ensures|modifies|mode|loop|invariant|decreases|hint|unfold|use|induct|may_panic|trusted|abstracts|inline|intonly|partial|posts_only|assert_at|assert_call|preserves|sets|volatile_inv|wraps_signed|volatile|witness|cases|property|spec|lemma|struct|global|ghost|noframe|const)\b`)
+var keywordRe = regexp.MustCompile(`^(package|axiom|func|requires|ensures|modifies|mode|loop|invariant|decreases|hint|unfold|use|induct|may_panic|trusted|abstracts|inline|intonly|partial|posts_only|assert_at|assert_call|preserves|sets|volatile_inv|check_pre|wraps_signed|volatile|witness|cases|property|spec|lemma|struct|global|ghost|noframe|const)\b`)
 
 // stripComment removes a trailing `// ...` that is outside string literals
 func stripComment(s string) string {
@@ -685,6 +686,12 @@ func (db *ContractDB) LoadFile(path, pkgPath string, trusted bool) error {
 					return err
 				}
 				cur.SiteAsserts = append(cur.SiteAsserts, &SiteAssert{Text: text, Cl: cl})
+			case "check_pre":
+				for _, f := range strings.Split(rest, ",") {
+					if f = strings.TrimSpace(f); f != "" {
+						cur.CheckPre = append(cur.CheckPre, f)
+					}
+				}
 			case "volatile_inv":
 				cl, err := parseClause(rest, st.src)
 				if err != nil {
